@@ -20,6 +20,7 @@ import subprocess
 import sys
 import time
 import uuid as real_uuid
+import warnings
 from concurrent.futures import ThreadPoolExecutor
 
 from common import Verdict, tier as get_tier, seed as get_seed, RUN
@@ -323,6 +324,7 @@ def child_main(path):
     """Re-evaluate the cases of a file in this process (started under another PYTHONHASHSEED)."""
     from vsim import world as W          # noqa: F401  (sets sys.path for the real code)
     import asl_workflow_engine.state_engine_paths as sp
+    warnings.simplefilter("ignore", FutureWarning)
     sp.uuid = real_uuid
     with open(path) as f:
         doc = json.load(f)
@@ -764,7 +766,7 @@ def make_obs(oid, kind, tla_tpl, inp, ctx, out, val, same, seedsame, engine):
             "facts": facts_for(tla_tpl, inp, ctx, val), "out": out, "same": same, "seedsame": seedsame, "leak": leak}
 
 
-def judge_and_report(v, obs, info, workdir, extra_cov):
+def judge_and_report(v, obs, info, workdir):
     import judge
     try:
         with ThreadPoolExecutor(max_workers=1) as ex:          # the laws are model-checked while the judge runs
@@ -805,6 +807,7 @@ def run(tier_name=None, replay=None):
     v = Verdict("C13", t)
     from vsim import world as W
     import asl_workflow_engine.state_engine_paths as sp
+    warnings.simplefilter("ignore", FutureWarning)      # re.split on the unescaped separator class (finding KC13-8)
     fake_uuid = sp.uuid
     sp.uuid = real_uuid                       # States.UUID is judged by its shape: no deterministic ids here
     try:
@@ -831,7 +834,7 @@ def run_replay(v, sp, replay):
     o = make_obs(1, rp.get("kind", "template"), tla_tpl, inp, ctx, out, val, same, seedsame, bool(rp.get("engine")))
     info = {1: {"obs": o, "real": real, "input": inp, "ctx": ctx, "shown": shown(out, val)}}
     print("   replayed: %s on %s -> %s" % (json.dumps(real)[:200], json.dumps(inp)[:80], shown(out, val)[:200]))
-    stats = judge_and_report(v, [o], info, work, {})
+    stats = judge_and_report(v, [o], info, work)
     if stats:
         v.coverage = {"states": stats["states"], "transitions": max(stats["transitions"], 1), "traces_validated_against_impl": 1,
                       "samples": [{"template": real, "observed": shown(out, val)}], "failed_clauses": stats["failed_clauses"]}
@@ -897,7 +900,7 @@ def run_check(v, sp, t, thorough):
         obs.append(o)
         info[oid] = {"obs": o, "real": real, "input": c["input"], "ctx": NO_CTX, "shown": shown(out, val)}
     phase("engine_runs")
-    stats = judge_and_report(v, obs, info, work, {})
+    stats = judge_and_report(v, obs, info, work)
     if stats is None:
         return v.finish()
     phase("tlc_judge_and_laws")
